@@ -351,6 +351,16 @@ UNITS = [
       bound='at most 2 points, start offset <= 8; loop bounds sized for one write per float, per point or per frame',
       props={'memsafe': ['C13'], 'ub': ['C13']},
       assumes=['plain symbolic execution of the real Points::write / Point::write over the stream model']),
+    U('Parameters_default_ctor', 'contracts/default_parameters.c', 'h_Parameters_default_ctor', [], ['C05', 'C09', 'C13'], mode='bmc',
+      stubs={'Group__ctor': 'stubd_Group_ctor', 'Parameter__ctor': 'stubd_Parameter_ctor', 'Parameter__set__int': 'stubd_set_int',
+             'Parameter__set__double': 'stubd_set_double', 'Parameter__set__vstr_vsz': 'stubd_set_vstr', 'Parameter__set__vint_vsz': 'stubd_set_vint',
+             'Parameter__set__vfloat_vsz': 'stubd_set_vfloat', 'Parameter__lock': 'stubd_lock',
+             'Group__parameter__Parameter': 'stubd_Group_parameter', 'Parameters__group__Group': 'stubd_Parameters_group'},
+      unwind=34, timeout=900, level='PB', object_bits=12,
+      bound='complete symbolic execution of the straight-line constructor (recording capacity 32 parameters)',
+      props={'memsafe': ['C13'], 'ub': ['C13']},
+      assumes=['plain symbolic execution of the real Parameters::Parameters(); constructors, setters, lock, Group::parameter(p) and '
+               'Parameters::group(g) are recording stubs (their own units: Parameter_set_*, Group_parameter, B_Parameters_group_merge)']),
     U('Parameters_write', WR, 'h_Parameters_write', ['Parameters__write/contract_Parameters__write'],
       ['C01', 'C03', 'C13', 'C14', 'C10'], replace=['Group__write/contract_abs_Group__write'], unwind=5, loops=True, timeout=900,
       pre_unwind={'vf_stream_write.0': 5, 'Parameters__write.0': 3},
